@@ -281,9 +281,12 @@ package cbor
 //@   ensures[write-failure-surfaces] failed(e.w) ==> result != nil
 //@   ensures[skew] accepted(e.w) - wrapped(e.w) == old(accepted(e.w) - wrapped(e.w))
 //@   ensures accepted(e.w) >= old(accepted(e.w))
-//@   assigns accepted(e.w), failed(e.w), content(e.w), wrapped(e.w), all(spos)
+//@   assigns accepted(e.w), failed(e.w), content(e.w), wrapped(e.w)
+//@   assigns forall k int :: 0 <= k && k < len(mes) ==> spos(mes[k].keyBuf)
+//@   assigns forall k int :: 0 <= k && k < len(mes) ==> spos(mes[k].valueBuf)
 //@   loop 0:
 //@     invariant e.w != nil && !failed(e.w) && len(entries) == len(mes) && fresh(entries)
+//@     invariant[from-mes] forall k int :: 0 <= k && k < len(entries) ==> 0 <= sortperm(k) && sortperm(k) < len(mes) && entries[k] == old(mes[sortperm(k)])
 //@     invariant[entries-fresh] forall k int :: rangeindex < k && k < len(entries) ==> entryFresh(entries[k])
 //@     invariant[distinct] forall a int, b int :: {entries[a], entries[b]} 0 <= a && a < b && b < len(entries) ==> entries[a] != entries[b]
 //@     invariant[no-alias] forall k int :: 0 <= k && k < len(entries) ==> entries[k] != nil && ref(e.w) != ref(entries[k].keyBuf) && ref(e.w) != ref(entries[k].valueBuf) && ref(under(e.w)) != ref(entries[k].keyBuf) && ref(under(e.w)) != ref(entries[k].valueBuf)
